@@ -219,11 +219,14 @@ def nf_diff(profile, full, known, oracle):
             out["violations"].append(v)
         return out
     tainted = set(full["tainted"])
+    # after an interrupted registration the two executions legitimately live on different
+    # databases (it may or may not have taken effect): nothing later is compared
+    cut = min([o["i"] for o in ops if o.get("intr") and (o.get("reg") or o["k"].startswith("reg."))] or [10 ** 9])
     a = {e[0]: e for e in full["log"]}
     b = {e[0]: e for e in nf["log"]}
     opmap = {o["i"]: o for o in ops}
     for i in sorted(a):
-        if i not in b:
+        if i not in b or i >= cut:
             continue
         ea, eb = a[i], b[i]
         if ea[3] == "skip" or eb[3] == "skip" or ea[3] == "intr":
